@@ -192,7 +192,7 @@ def run(module, cfg=None, *, env=None, workers=1, scratch=None, timeout=3600, si
         scratch = tempfile.mkdtemp(prefix='verif-tlc-')
     meta = tempfile.mkdtemp(prefix='meta-', dir=scratch)
     cfg = cfg or module
-    cmd = ['java', '-Xmx' + heap, '-XX:+UseParallelGC']
+    cmd = ['java', '-Xmx' + heap, '-Xss256m', '-XX:+UseParallelGC']
     cmd += ['-XX:ParallelGCThreads=%d' % (1 if workers == 1 else 4)]
     if depth_first:
         cmd += ['-Dtlc2.tool.queue.IStateQueue=StateDeque']
